@@ -51,6 +51,9 @@ def cases(L):
     # absolute lengths: sweeping L moves the line break across every position of these texts
     for n in range(36, 141, 3):
         out.append(("fixed_default_sentence:%d" % n, dict(a_doc=words(n, "p") + ". Defaults to 5")))
+    # long prose under a two-line summary: the re-fill path of the class / function docstring builder
+    for n in range(150, 331, 3):
+        out.append(("multiline_summary:%d" % n, dict(summary="First line of the summary\nsecond line of it", a_doc=words(n, "p"))))
     for n in (45, 70, 95, 120, 170, 260):
         out.append(("fixed_dashes:%d" % n, dict(a_doc=dashed(n), b_doc=dashed(n + 7))))
     return out
